@@ -116,6 +116,19 @@ func checkRequestLoop(c *Check, p *Program, rule string, fn *ssa.Function, sel *
 		case t.Kind == "after" && t.Field == timeoutField:
 			rl.TimeoutSt, rl.Timeout = i, t
 			c.Decide(outside, rule+".timeout", name+" timeout timer created once", p.InstrPos(t.Call), "time.After("+fieldKey(timeoutField)+") is evaluated before the loop", "the timeout timer is (re)created inside the wait loop: every iteration restarts the deadline, so the call may never return")
+			// a timer object must not be re-armed inside the wait loop either
+			if funcIs(calleeObj(t.Call), "time", "", "NewTimer") {
+				for b := range lp.Body {
+					for _, in := range b.Instrs {
+						if call, ok := in.(*ssa.Call); ok && funcIs(calleeObj(call), "time", "Timer", "Reset") {
+							recv := callRecv(call)
+							if recv == ssa.Value(t.Call) || resolveCell(recv) == ssa.Value(t.Call) || resolveFree(recv) == ssa.Value(t.Call) {
+								c.Fail(rule+".timeout", name+" timeout timer re-armed in the loop", p.InstrPos(call), "the response-timeout timer is Reset inside the wait loop: replies that keep arriving (a busy gateway, foreign acknowledgements) postpone the deadline for ever")
+							}
+						}
+					}
+				}
+			}
 			// the case leaves the function with a non-nil error
 			body := cases[i].Body
 			ok := body != nil
